@@ -85,14 +85,23 @@ where
 	C::Instance: Clone,
 {
 	let t = rsx::param("t") as usize;
-	let c0 = valid_candle_i(1000);
+	// cvol=1: volumes are the concrete numbers 1, 2, 3, .. (keeps price * volume products linear; used for
+	// MoneyFlowIndex, whose fully symbolic version is a deepening job)
+	let cvol = rsx::param_or("cvol", 0) != 0;
+	let mut c0 = valid_candle_i(1000);
+	if cvol {
+		c0.volume = 1.0;
+	}
 	let cfg = C::default();
 	let cfg2 = cfg.clone();
 	let (nv, ns) = cfg.size();
 	let mut a = cfg.init(&c0).unwrap();
 	let mut b = cfg2.init(&c0).unwrap();
 	for i in 0..t {
-		let c = valid_candle_i(i);
+		let mut c = valid_candle_i(i);
+		if cvol {
+			c.volume = (i + 2) as ValueType;
+		}
 		let ra = a.next(&c);
 		let rb = b.next(&c);
 		rsx::check("ind.shape.values", ra.values().len() == nv as usize);
@@ -108,7 +117,10 @@ where
 		if i + 2 == t {
 			// a clone taken now continues identically
 			let mut cl = a.clone();
-			let cn = valid_candle_i(i + 1);
+			let mut cn = valid_candle_i(i + 1);
+			if cvol {
+				cn.volume = (i + 3) as ValueType;
+			}
 			let r1 = cl.next(&cn);
 			let r2 = b.clone().next(&cn);
 			for q in 0..r1.values().len() {
